@@ -4,6 +4,8 @@ import (
 	"context"
 	"fmt"
 	"net"
+	"strings"
+	"time"
 
 	"github.com/pascaldekloe/mqtt"
 )
@@ -65,6 +67,18 @@ func (purePort) exec(f []string) []string {
 			return []string{"connreq " + denyClass(err)}
 		}
 		return []string{"connreq pkt " + hexs(mqtt.VerifNewCONNREQ(&c, unhex(f[10])))}
+	case "wt": // wt <packet-hex> <policy>
+		c := &policyConn{policy: parsePolicy(f[2])}
+		err := mqtt.VerifWriteTo(c, unhex(f[1]), time.Hour)
+		return []string{fmt.Sprintf("wt %s log=%s", writeClass(err), hexs(c.log))}
+	case "wb": // wb <buf-hex>,<buf-hex>,... <policy>
+		var bufs net.Buffers
+		for _, h := range strings.Split(f[1], ",") {
+			bufs = append(bufs, unhex(h))
+		}
+		c := &policyConn{policy: parsePolicy(f[2])}
+		err := mqtt.VerifWriteBuffersTo(c, bufs, time.Hour)
+		return []string{fmt.Sprintf("wb %s log=%s", writeClass(err), hexs(c.log))}
 	}
 	return []string{"bad-op " + f[0]}
 }
